@@ -1352,6 +1352,31 @@ func (b *Builder) cond(e ast.Expr, t, f *Node) {
 		return
 	}
 	switch x := e.(type) {
+	case *ast.CallExpr:
+		// slices.Equal(a, []T{c0, ..}) against a literal of a few constants is the length test
+		// and the element tests written out
+		if a, elts := b.sliceEqualLiteral(x); a != nil {
+			at := b.expr(a)
+			conds := []*Term{mk("bin", "==", mk("call", "len", at), konst(strconv.Itoa(len(elts))))}
+			for i, el := range elts {
+				conds = append(conds, mk("bin", "==", mk("index", "", at, konst(strconv.Itoa(i))), b.expr(el)))
+			}
+			for i, ct := range conds {
+				n := b.newNode(NBranch, x.Pos())
+				n.Cond = ct
+				b.emit(n)
+				next := t
+				if i < len(conds)-1 {
+					next = b.label()
+				}
+				n.Succ = []*Node{next, f}
+				b.cur = nil
+				if i < len(conds)-1 {
+					b.start(next)
+				}
+			}
+			return
+		}
 	case *ast.BinaryExpr:
 		switch x.Op {
 		case token.LAND:
@@ -1379,6 +1404,38 @@ func (b *Builder) cond(e ast.Expr, t, f *Node) {
 	b.emit(n)
 	n.Succ = []*Node{t, f}
 	b.cur = nil
+}
+
+// sliceEqualLiteral: call is slices.Equal with exactly one operand a composite literal of one to
+// four constant elements; returns the other operand and the elements.
+func (b *Builder) sliceEqualLiteral(call *ast.CallExpr) (ast.Expr, []ast.Expr) {
+	fn, _ := typeutil.Callee(b.info, call).(*types.Func)
+	if fn == nil || fn.Pkg() == nil || fn.Pkg().Path() != "slices" || fn.Name() != "Equal" || len(call.Args) != 2 {
+		return nil, nil
+	}
+	for i := 0; i < 2; i++ {
+		cl, ok := ast.Unparen(call.Args[i]).(*ast.CompositeLit)
+		if !ok || len(cl.Elts) == 0 || len(cl.Elts) > 4 {
+			continue
+		}
+		if _, other := ast.Unparen(call.Args[1-i]).(*ast.CompositeLit); other {
+			return nil, nil
+		}
+		allConst := true
+		for _, el := range cl.Elts {
+			if _, kv := el.(*ast.KeyValueExpr); kv {
+				allConst = false
+				break
+			}
+			if tv, ok := b.info.Types[el]; !ok || tv.Value == nil {
+				allConst = false
+			}
+		}
+		if allConst {
+			return call.Args[1-i], cl.Elts
+		}
+	}
+	return nil, nil
 }
 
 // leaf evaluates an atomic condition without lowering a top-level comparison.
